@@ -119,35 +119,47 @@ fn attempt(infos: &[Value], service: &str, ttl: u32, asynchronous: bool, remove:
 pub fn run(a: &Args) {
     let mut out = Out::new(&a.out, a.shards);
     let mut st = Stats::default();
-    let rt = tokio::runtime::Builder::new_multi_thread().worker_threads(4).enable_all().build().expect("tokio runtime");
+    let rt = std::sync::Arc::new(tokio::runtime::Builder::new_multi_thread().worker_threads(4).enable_all().build().expect("tokio runtime"));
     let mut rng = StdRng::seed_from_u64(a.seed ^ 0xe2e);
     let scenarios = if a.tier == "thorough" { 4 } else { 1 };
     let attempts = if a.tier == "thorough" { 3 } else { 2 };
+    // every attempt of every scenario has its own service name, so they can all run at the same time
+    let mut jobs = vec![];
     for s in 0..scenarios {
         for asynchronous in [false, true] {
             let npeers = if s % 2 == 0 { 3 } else { 2 };
-            let names = ["alpha", "Beta b", "c.3"];
+            let names = ["alpha", "Beta-b", "c3"];
             let infos: Vec<Value> = (0..npeers).map(|i| random_instance(&mut rng, names[i])).collect();
             let remove = rng.gen_range(0..npeers);
             let ttl = 60u32;
-            let mut tls: Vec<Value> = vec![];
-            let mut note = String::new();
-            for k in 0..attempts {
-                let service = format!("_e{}s{}k{}{}._tcp.local", std::process::id(), s, k, if asynchronous { "a" } else { "s" });
-                match attempt(&infos, &service, ttl, asynchronous, remove, &rt) {
-                    Ok(tl) => tls.push(json!(tl)),
-                    Err(why) => {
-                        note = why;
-                        break;
-                    }
-                }
-            }
-            let panics: Vec<String> = FOREIGN_PANICS.lock().map(|v| v.clone()).unwrap_or_default();
-            st.case((s, asynchronous), !tls.is_empty());
-            st.bump(if tls.is_empty() { "e2e-inconclusive" } else { "e2e-scenarios" });
-            out.emit(json!({"ev": "E2E", "cls": format!("e2e {} peers={}", if asynchronous { "async" } else { "sync" }, npeers),
-                "flavour": if asynchronous { "async" } else { "sync" }, "peers": infos, "ttl": ttl, "remove": remove, "attempts": tls, "panics": panics, "note": note}));
+            let handles: Vec<_> = (0..attempts)
+                .map(|k| {
+                    let service = format!("_e{}s{}k{}{}._tcp.local", std::process::id(), s, k, if asynchronous { "a" } else { "s" });
+                    let (infos, rt) = (infos.clone(), rt.clone());
+                    std::thread::spawn(move || {
+                        crate::util::install_panic_hook();
+                        attempt(&infos, &service, ttl, asynchronous, remove, &rt)
+                    })
+                })
+                .collect();
+            jobs.push((s, asynchronous, npeers, infos, remove, ttl, handles));
         }
+    }
+    for (s, asynchronous, npeers, infos, remove, ttl, handles) in jobs {
+        let mut tls: Vec<Value> = vec![];
+        let mut note = String::new();
+        for h in handles {
+            match h.join() {
+                Ok(Ok(tl)) => tls.push(json!(tl)),
+                Ok(Err(why)) => note = why,
+                Err(_) => note = "attempt thread panicked".to_string(),
+            }
+        }
+        let panics: Vec<String> = FOREIGN_PANICS.lock().map(|v| v.clone()).unwrap_or_default();
+        st.case((s, asynchronous), !tls.is_empty());
+        st.bump(if tls.is_empty() { "e2e-inconclusive" } else { "e2e-scenarios" });
+        out.emit(json!({"ev": "E2E", "cls": format!("e2e {} peers={}", if asynchronous { "async" } else { "sync" }, npeers),
+            "flavour": if asynchronous { "async" } else { "sync" }, "peers": infos, "ttl": ttl, "remove": remove, "attempts": tls, "panics": panics, "note": note}));
     }
     out.finish(st.into_json("e2e",
         "real ServiceDiscovery peers (sync and tokio flavours) on the loopback multicast group: 2-3 peers advertising random instances (1-3 IPv4/IPv6 addresses, 1-2 ports, attributes with absent/empty/non-empty values) of a unique service find each other, one of them leaves with remove_service_from_discovery; get_known_services() of every peer is sampled every 250-500 ms; sampled, not exhaustive; non-trivial = the sockets could be set up",
